@@ -14,7 +14,7 @@ PROP = 'C13'
 SHAPES = {'quick': [(1, 1), (2, 2), (3, 3), (4, 4), (2, 3), (3, 2), (4, 2), (1, 6), (6, 3), (3, 6)],
           'thorough': [(1, 1), (1, 2), (2, 1), (2, 2), (3, 3), (4, 4), (6, 6), (2, 3), (3, 2), (4, 2), (2, 4), (1, 6), (6, 1), (6, 3), (3, 6), (6, 2), (4, 1)]}
 EDGES = [(0, 1), (1, 4), (1, 3), (1, 2), (2, 3), (1, 1), (3, 2)]
-LAWS = ('Parseval', 'DcAtOrigin', 'Hermitian', 'Additive', 'Monotone', 'FullBand')
+LAWS = ('Parseval', 'DcAtOrigin', 'Hermitian', 'Additive', 'Monotone', 'FullBand', 'Homogeneous')
 
 
 def cfg(shapes, emit):
@@ -113,6 +113,15 @@ def replay(rec, ctx, np):
                 fails.append(('Interferogram.bandlimited_rms:%s' % cls, 'object %r function %r' % (full, ref)))
             if not (0 <= tis <= 1):
                 fails.append(('Interferogram.total_integrated_scatter:%s' % cls, 'TIS %r outside [0, 1]' % tis))
+            # history: the PSD of an interferogram is that of its CURRENT data (Homogeneous: doubling the map in place
+            # quadruples the PSD and doubles the band-limited RMS)
+            ig.data *= 2
+            pp2 = ig.psd()
+            with warnings.catch_warnings():
+                warnings.simplefilter('ignore')
+                full2 = float(ig.bandlimited_rms(flow=0, fhigh=None))
+            if core.maxabs(np.asarray(pp2.data) - 4 * auto) > 1e-11 * (1 + core.maxabs(auto)) or abs(full2 - 2 * ref) > 1e-9 * (1 + ref):
+                fails.append(('Interferogram.psd:after-in-place-change:%s' % cls, 'after data *= 2 the PSD is not 4x the earlier one (band-limited rms %r, was %r)' % (full2, ref)))
     except Exception as ex:
         import traceback
         site = next((f.name for f in reversed(traceback.extract_tb(ex.__traceback__)) if '/prysm/' in f.filename), None)
